@@ -23,6 +23,22 @@ Extended kinds (added after seeded wave 3).  The property is scale free (lineari
   * RIPPLE-ON-DC inputs D + e*w (RIPPLES: (D, e/D) = (1, 1e-6), (-1e6, 1e-9), (1e-9, 1e-3)) : expected D + e*F(w);
   * the entry-point MODE axis: every LPF container kind (with / without / only noise, constant + noise) is run in
     retH=True mode as well as in plain mode (fs=... mode is part of cfg), through the signal AND the noise path.
+
+Hardening pass (input classes, see notes/C11.md "Hardening pass").  More members of existing axes plus three parts:
+  * sample DTYPES (DT: bool, int8...uint64, float16/32, complex64/128, integers near the limit of their dtype) through the
+    ndarray, the container+noise and the 1-/2-pol entry points, complete basis each (operator-x);
+  * SPELLINGS of the scalar arguments BW, n, fs (Python int, numpy ints, float32/64, 0-d arrays) and of the grid
+    configuration (gv by (sps,fs), (R,fs) with non-integer fs/R, fs alone, wavelength + N) - same operator matrix expected;
+  * layouts: all-zero noise, empty second polarisation, aliased signal/noise objects, strided / Fortran-ordered views,
+    noise of another dtype than the signal; every input of the basis / superposition / history parts is WRITE-PROTECTED
+    and compared byte for byte afterwards;
+  * record lengths: the shortest legal record of EVERY order (max(17, 3*(n+1)+1)), retH also on 97 and 1025 points;
+  * cutoffs: CUTS_FINE (tone, retH) fills the gaps of CUTS, in particular [0.25, 0.45)*fs;
+  * chained calls F(F(x)), dtype-quantised superposition fields, integer-valued floats;
+  * part history: ONE write-protected input object through sequences of calls between which the grid is reconfigured
+    (7 menu entries, all ordered pairs; thorough: triples) with the same BW and n, with / without fs=...; every step is
+    judged with an ABSOLUTE oracle (closed-form two-pass Bessel gain at three tones);
+  * part sweep: one shared input object, BW swept up and down over 12 cutoffs and n over 1..8.
 """
 from __future__ import annotations
 
@@ -33,7 +49,7 @@ from math import factorial
 import numpy as np
 
 from mcx.core.kernel import res
-from mcx.core.env import gv_reset
+from mcx.core.env import gv_reset, freeze, unchanged
 
 ID = 'C11'
 LEVEL = 'exploration'
@@ -42,14 +58,15 @@ NONTRIVIAL = ('a case is non-trivial when the operator of its configuration diff
               'row / coefficient pair / tone ladder) of one configuration; tags are (cfg, N, kind)')
 
 CUTS = (0.01, 0.05, 0.1, 0.25, 0.45)
+CUTS_FINE = (0.011, 0.02, 0.2, 0.3, 0.35, 0.4, 0.449)     # tone / retH parts only: fills the gaps of CUTS (identity shortcuts, thresholds)
 RATES = {16e9: dict(sps=16, R=1e9), 160e9: dict(sps=16, R=10e9)}
 N_OP = (28, 64, 257)          # 28 = shortest record every order 1..8 accepts (sosfiltfilt padlen is 3*(order+1): 27 for order 8)
 N_SHORT = 17                  # "longer than the 16-sample edge padding": accepted by orders 1..4 only (scipy refuses it for orders >= 5)
 N_SYM = 2049
 N_TONE = 4096
-N_RETH = (28, 64, 257, 4096)
+N_RETH = (28, 64, 97, 257, 1025, 4096)      # + the shortest legal record of the order (n_min)
 N_EXT_QUICK = (17, 28, 64)    # record lengths of the extended kinds in the quick tier (thorough: all of n_op)
-AMPS = (1e-12, 1e-9, 1e6)     # amplitude axis (1.0 = the base kinds): pA / nA level records and a large one
+AMPS = (1e-12, 1e-9, 1e-6, 1e6)     # amplitude axis (1.0 = the base kinds): pA / nA / uA level records and a large one
 RIPPLES = ((1.0, 1e-6), (-1e6, 1e-9), (1e-9, 1e-3))     # (DC level D, ripple amplitude relative to |D|)
 
 # ---- tolerances (see notes/C11.md for the justification of each)
@@ -96,15 +113,55 @@ def other_rate(fs):
     return 160e9 if fs == 16e9 else 16e9
 
 
-def setup(cfg):
+# spellings of the grid configuration: the SAME sampling rate r reached through another call form of gv
+GV_SPELL = {
+    'sps-fs': lambda r: dict(sps=16, fs=r),
+    'R-fs': lambda r: dict(R=r / 12.5, fs=r),               # non-integer fs/R: gv.sps = 12 and gv.sps*gv.R = 0.96*gv.fs
+    'fs-alone': lambda r: dict(fs=r),                       # R stays at its default, sps follows
+    'wl-N': lambda r: dict(sps=16, R=r / 16, wavelength=1310e-9, N=8),
+}
+# spellings of the scalar arguments (BW, n, fs): "wherever a scalar is accepted"
+SC_SPELL = ('pyint', 'np-int', 'np-f64', 'np-f32', '0d')
+
+
+def _f32(v):
+    """np.float32 where the value is exactly representable (then nothing but the type changes), else np.float64"""
+    return np.float32(v) if float(np.float32(v)) == float(v) else np.float64(v)
+
+
+def spell(sp, BW, n, fs):
+    if sp is None:
+        return BW, n, fs
+    if sp == 'pyint':
+        return int(round(BW)), int(n), int(round(fs))          # BW and fs of every configuration are whole numbers of Hz
+    if sp == 'np-int':
+        return np.int64(round(BW)), np.int32(n), np.int64(round(fs))
+    if sp == 'np-f64':
+        return np.float64(BW), np.int64(n), np.float64(fs)
+    if sp == 'np-f32':
+        return _f32(BW), np.uint8(n), _f32(fs)
+    if sp == '0d':
+        return np.array(BW), np.array(n), np.array(fs)
+    raise KeyError(sp)
+
+
+LOW_RATE = 16.0               # Hz: a legal sampling rate at which every BW of the enumeration is a FRACTIONAL number of Hz
+
+
+def setup(cfg, gsp=None):
     dev, n, c, fs, src = cfg
     _install_memo()
-    gv_reset(**RATES[fs if src == 'gv' else other_rate(fs)])
+    if fs == LOW_RATE:
+        gv_reset(**(dict(sps=16, R=1.0) if src == 'gv' else RATES[16e9]))
+        return
+    r = fs if src == 'gv' else other_rate(fs)
+    gv_reset(**(RATES[r] if gsp is None else GV_SPELL[gsp](r)))
 
 
-def F(cfg, inp, retH=False):
-    """one call of the real block"""
+def F(cfg, inp, retH=False, sp=None):
+    """one call of the real block ; sp = spelling of the scalar arguments"""
     dev, n, c, fs, src = cfg
+    BW, n, fs = spell(sp, c * fs if dev == 'LPF' else 2 * c * fs, n, fs)       # BPF: BW/2 either side of the carrier is the cutoff
     if dev == 'LPF':
         from opticomlib.devices import LPF
         kw = {}
@@ -112,9 +169,9 @@ def F(cfg, inp, retH=False):
             kw['fs'] = fs
         if retH:
             kw['retH'] = True
-        return LPF(inp, c * fs, n=n, **kw)
+        return LPF(inp, BW, n=n, **kw)
     from opticomlib.devices import BPF
-    return BPF(inp, 2 * c * fs, n=n)       # BW/2 either side of the carrier is the cutoff
+    return BPF(inp, BW, n=n)
 
 
 def arrs(out):
@@ -178,6 +235,38 @@ BPF_XKINDS = (tuple(f'{c}-amp:{i}' for c in ('os1', 'os2+noise') for i in range(
               + tuple(f'{c}-ripple:{i}' for c in ('os1', 'os2+noise') for i in range(len(RIPPLES))))
 ZC = (0.3 - 2j)               # fixed complex coefficient of the BPF alphabets
 
+# ---- hardening pass: sample dtypes.  name -> (dtype, coefficient the basis vector carries, class)
+#   class 'exact'  : every value involved is exactly representable; judged with TOL_LIN
+#   class 'lowprec': float16 / float32 / complex64 - judged with 8*eps(dtype) (the statement is silent about the working
+#                    precision for a low-precision record; 0.5*e_k itself is exact in every one of them)
+#   class 'unsigned' / 'full-scale-int': integer records whose edge extension 2*x[0]-x[k] leaves the dtype.  The property
+#                    (linearity: F(x) for integer x == F of the same values as floats) is asserted under its own key
+#                    {dev}:integer-input-wraparound:{class}  (finding C11_1; MCX_C11_SKIP_WRAP=1 drops these kinds)
+DT = {
+    'bool': (np.bool_, 1, 'exact'), 'i8': (np.int8, 3, 'exact'), 'i16': (np.int16, 3, 'exact'), 'i32': (np.int32, 3, 'exact'),
+    'i64': (np.int64, 3, 'exact'), 'f16': (np.float16, 0.5, 'lowprec'), 'f32': (np.float32, 0.5, 'lowprec'),
+    'c64': (np.complex64, 0.5, 'lowprec'), 'c128': (np.complex128, 0.5, 'exact'),
+    'u8': (np.uint8, 3, 'unsigned'), 'u16': (np.uint16, 3, 'unsigned'), 'u32': (np.uint32, 3, 'unsigned'), 'u64': (np.uint64, 3, 'unsigned'),
+    'i8-fs': (np.int8, 100, 'full-scale-int'), 'i16-fs': (np.int16, 30000, 'full-scale-int'),
+}
+if os.environ.get('MCX_C11_SKIP_WRAP'):
+    DT = {k: v for k, v in DT.items() if v[2] in ('exact', 'lowprec')}
+
+
+def dt_tol(name):
+    dt, _, cls = DT[name]
+    return max(TOL_LIN, 8 * float(np.finfo(dt).eps)) if cls == 'lowprec' else TOL_LIN
+
+
+LPF_HKINDS = (tuple(f'{c}-dt:{d}' for c in ('nd', 'es+noise') for d in DT)
+              + tuple(f'{c}-sp:{x}' for c in ('nd', 'es+noise') for x in SC_SPELL)
+              + tuple(f'{c}-gv:{g}' for c in ('nd', 'es+noise') for g in GV_SPELL)
+              + ('es+zero-noise', 'es+zero-sum-noise', 'es-alias', 'es-mixed-dtype', 'es-mixed-dtype2', 'nd-strided', 'es+noise-retH-sp:np-int', 'nd-lowfs', 'es+noise-lowfs'))
+BPF_HKINDS = (tuple(f'{c}-dt:{d}' for c in ('os1', 'os2+noise') for d in DT)
+              + tuple(f'{c}-sp:{x}' for c in ('os1', 'os2+noise') for x in SC_SPELL)
+              + tuple(f'{c}-gv:{g}' for c in ('os1', 'os2+noise') for g in GV_SPELL)
+              + ('os2-row1-zero', 'os2+zero-noise', 'os2+zero-sum-noise', 'os2-alias', 'os2-fortran', 'os2-mixed-dtype', 'os2-mixed-dtype2', 'os1-lowfs', 'os2+noise-lowfs'))
+
 
 def amp(i, shift=0):
     """member of the amplitude axis; shift walks cyclically so that the components of ONE call carry DIFFERENT amplitudes"""
@@ -199,25 +288,59 @@ def on_dc(N, k, D, e, dt=float):
     return a, a[k] - D
 
 
+def n_min(order):
+    """shortest record the statement admits for this order: longer than the 16-sample padding of the default order AND
+    longer than scipy's padding 3*(order+1) (orders 1..8: 17, 17, 17, 17, 19, 22, 25, 28)"""
+    return max(N_SHORT, 3 * (order + 1) + 1)
+
+
 def n_op(order):
-    return ((N_SHORT,) if order <= 4 else ()) + N_OP
+    return tuple(sorted({n_min(order)} | set(N_OP)))
 
 
 def perm(N, k):
     """three fixed permutations of the basis index, so that signal, noise and both rows carry DIFFERENT basis
     vectors in the same call and each of them still runs through the complete basis"""
-    return (5 * k + 3) % N, (3 * k + 1) % N, N - 1 - k      # gcd(5,N)=gcd(3,N)=1 for N in {17,28,64,257}
+    m1 = 5 if N % 5 else 7                                  # multipliers coprime with N for every N in use (25: 7 and 3)
+    return (m1 * k + 3) % N, (3 * k + 1) % N, N - 1 - k     # gcd(m1,N)=gcd(3,N)=1 for N in {17,19,22,25,28,64,257}
 
 
 def kind_mode(kind):
-    """-> (base container kind, retH mode?, key suffix)"""
+    """-> (base container kind, retH mode?, key suffix, spelling of the scalar arguments, spelling of the grid)"""
+    sp = gsp = None
+    sfx = ''
+    if kind.endswith('-lowfs'):      # the same order and cutoff/fs at fs = LOW_RATE (run_basis re-targets the configuration)
+        kind, gsp, sfx = kind[:-6], 'lowfs', ':low-rate'
+    if '-sp:' in kind:
+        kind, sp = kind.split('-sp:')
+        sfx = ':spelling'
+    if '-gv:' in kind:
+        kind, gsp = kind.split('-gv:')
+        sfx = ':gv-form'
     if kind.endswith('-retH'):
-        return (kind if kind == 'nd-retH' else kind[:-5]), True, ':retH-mode'
+        return (kind if kind == 'nd-retH' else kind[:-5]), True, ':retH-mode' + sfx, sp, gsp
     if '-amp:' in kind:
-        return kind, False, ':amp'
+        return kind, False, ':amp', sp, gsp
     if '-ripple:' in kind:
-        return kind, False, ':ripple'
-    return kind, False, ''
+        return kind, False, ':ripple', sp, gsp
+    if '-dt:' in kind:
+        return kind, False, ':dtype', sp, gsp
+    if kind in LAYOUT_KINDS:
+        return kind, False, ':layout', sp, gsp
+    return kind, False, sfx, sp, gsp
+
+
+LAYOUT_KINDS = ('es+zero-noise', 'es+zero-sum-noise', 'os2+zero-sum-noise', 'es-alias', 'es-mixed-dtype', 'es-mixed-dtype2', 'nd-strided', 'os2-row1-zero', 'os2+zero-noise',
+                'os2-alias', 'os2-fortran', 'os2-mixed-dtype', 'os2-mixed-dtype2')
+
+
+def dt_unit(N, k, name, sign=1):
+    """coef*e_k held in the dtype `name` -> (array, coef as the float/complex the array really holds)"""
+    dt, coef, cls = DT[name]
+    a = np.zeros(N, dtype=dt)
+    a[k] = coef if sign > 0 or cls == 'unsigned' or dt is np.bool_ else -coef
+    c = a[k].item()
+    return a, (float(c) if isinstance(c, (bool, int)) else c)
 
 
 def basis_input(dev, kind, N, k):
@@ -242,6 +365,37 @@ def basis_input(dev, kind, N, k):
                 return x0, [('signal', None, ('r', D0, f0, k))]
             x1, f1 = on_dc(N, s1, D1, e1)
             return ES(x0, x1), [('signal', None, ('r', D0, f0, k)), ('noise', None, ('r', D1, f1, s1))]
+        if '-dt:' in kind:
+            cont, name = kind.split('-dt:')
+            x0, c0 = dt_unit(N, k, name)
+            if cont == 'nd':
+                return x0, [('signal', None, ('b', c0, k))]
+            x1, c1 = dt_unit(N, s1, name, -1)
+            return ES(x0, x1), [('signal', None, ('b', c0, k)), ('noise', None, ('b', c1, s1))]
+        if kind == 'nd':                                   # plain float64 record (the -sp / -gv kinds use it)
+            return unit(N, k), [('signal', None, ('b', 1.0, k))]
+        if kind == 'es+zero-noise':                        # noise present but all zero: stays zero, signal unaffected
+            return ES(unit(N, k), np.zeros(N)), [('signal', None, ('b', 1.0, k)), ('noise', None, ('z',))]
+        if kind == 'es+zero-sum-noise':                    # noise e_k - e_s1: sum and mean exactly zero
+            return ES(unit(N, s2), unit(N, k) - unit(N, s1)), [('signal', None, ('b', 1.0, s2)), ('noise', None, ('b', 1.0, k, s1))]
+        if kind == 'es-alias':                             # the SAME array object as signal and as noise
+            x = -2.5 * unit(N, k)
+            e = ES(x)
+            e.signal = x
+            e.noise = x
+            return e, [('signal', None, ('b', -2.5, k)), ('noise', None, ('b', -2.5, k))]
+        if kind == 'es-mixed-dtype':                       # noise of another dtype than the signal (set as attribute)
+            e = ES(unit(N, k))
+            e.noise = (3 * unit(N, s1)).astype(np.int16)
+            return e, [('signal', None, ('b', 1.0, k)), ('noise', None, ('b', 3.0, s1))]
+        if kind == 'es-mixed-dtype2':                      # the other way round: integer signal, fractional float noise
+            e = ES((3 * unit(N, k)).astype(np.int16))
+            e.noise = 0.5 * unit(N, s1)
+            return e, [('signal', None, ('b', 3.0, k)), ('noise', None, ('b', 0.5, s1))]
+        if kind == 'nd-strided':                           # every second element of a buffer whose other elements are 7.0
+            buf = np.full(2 * N, 7.0)
+            buf[::2] = unit(N, k)
+            return buf[::2], [('signal', None, ('b', 1.0, k))]
         if kind in ('nd-f64', 'nd-retH'):
             return unit(N, k), [('signal', None, ('b', 1.0, k))]
         if kind == 'nd-int':
@@ -282,6 +436,40 @@ def basis_input(dev, kind, N, k):
             return (OS(np.array([x0, x1]), np.array([x2, x3])),
                     [('signal', 0, ('r', R[0][0], f0, k)), ('signal', 1, ('r', R[1][0], f1, s1)),
                      ('noise', 0, ('r', R[2][0], f2, s2)), ('noise', 1, ('r', np.conj(R[0][0]), f3, s3))])
+        if '-dt:' in kind:
+            cont, name = kind.split('-dt:')
+            x0, c0 = dt_unit(N, k, name)
+            if cont == 'os1':
+                return OS(x0), [('signal', None, ('b', c0, k))]
+            (x1, c1), (x2, c2), (x3, c3) = dt_unit(N, s1, name, -1), dt_unit(N, s2, name, -1), dt_unit(N, s3, name)
+            return (OS(np.array([x0, x1]), np.array([x2, x3])),
+                    [('signal', 0, ('b', c0, k)), ('signal', 1, ('b', c1, s1)), ('noise', 0, ('b', c2, s2)), ('noise', 1, ('b', c3, s3))])
+        if kind == 'os2-row1-zero':                        # second polarisation empty, no noise
+            return OS(np.array([z * unit(N, k), np.zeros(N, complex)])), [('signal', 0, ('b', z, k)), ('signal', 1, ('z',))]
+        if kind == 'os2+zero-noise':                       # noise present but all zero in both polarisations
+            return (OS(np.array([unit(N, k, complex), 1j * unit(N, s1)]), np.zeros((2, N), complex)),
+                    [('signal', 0, ('b', 1.0, k)), ('signal', 1, ('b', 1j, s1)), ('noise', 0, ('z',)), ('noise', 1, ('z',))])
+        if kind == 'os2+zero-sum-noise':                   # zero-sum noise in both polarisations
+            return (OS(np.array([unit(N, k, complex), 1j * unit(N, s1)]), np.array([z * (unit(N, s2) - unit(N, s3)), unit(N, k) - unit(N, s1) + 0j])),
+                    [('signal', 0, ('b', 1.0, k)), ('signal', 1, ('b', 1j, s1)), ('noise', 0, ('b', z, s2, s3)), ('noise', 1, ('b', 1.0, k, s1))])
+        if kind == 'os2-alias':                            # the SAME (2,N) array object as signal and as noise
+            A = np.array([z * unit(N, k), -unit(N, s1, complex)])
+            o = OS(A)
+            o.signal = A
+            o.noise = A
+            return o, [('signal', 0, ('b', z, k)), ('signal', 1, ('b', -1.0, s1)), ('noise', 0, ('b', z, k)), ('noise', 1, ('b', -1.0, s1))]
+        if kind == 'os2-fortran':                          # column-major (2,N) arrays: the samples of a row are not contiguous
+            A = np.asfortranarray(np.array([unit(N, k, complex), 1j * unit(N, s1)]))
+            B = np.asfortranarray(np.array([z * unit(N, s2), -unit(N, s3, complex)]))
+            return OS(A, B), [('signal', 0, ('b', 1.0, k)), ('signal', 1, ('b', 1j, s1)), ('noise', 0, ('b', z, s2)), ('noise', 1, ('b', -1.0, s3))]
+        if kind == 'os2-mixed-dtype':                      # complex128 signal, int8 noise in one polarisation only
+            o = OS(np.array([unit(N, k, complex), 1j * unit(N, s1)]))
+            o.noise = np.array([3 * unit(N, s2), np.zeros(N)]).astype(np.int8)
+            return o, [('signal', 0, ('b', 1.0, k)), ('signal', 1, ('b', 1j, s1)), ('noise', 0, ('b', 3.0, s2)), ('noise', 1, ('z',))]
+        if kind == 'os2-mixed-dtype2':                     # the other way round: int8 signal, complex fractional noise
+            o = OS(np.array([3 * unit(N, k), -3 * unit(N, s1)]).astype(np.int8))
+            o.noise = np.array([0.5 * z * unit(N, s2), 0.5j * unit(N, s3)])
+            return o, [('signal', 0, ('b', 3.0, k)), ('signal', 1, ('b', -3.0, s1)), ('noise', 0, ('b', 0.5 * z, s2)), ('noise', 1, ('b', 0.5j, s3))]
         if kind == 'os1':
             return OS(unit(N, k, complex)), [('signal', None, ('b', 1.0, k))]
         if kind == 'os1-f64':
@@ -337,21 +525,34 @@ def run_basis(cfg, N, kind, M, scale):
     add - TOL_CONST*|D| (DC-gain cancellation, which also covers the eps*|D| representation error of D + e) plus
     TOL_LIN*max|M|*|e|."""
     dev = cfg[0]
-    base, reth, sfx = kind_mode(kind)
+    base, reth, sfx, sp, gsp = kind_mode(kind)
+    if gsp == 'lowfs':
+        cfg = cfg[:3] + (LOW_RATE, cfg[4])       # same order and cutoff/fs -> the same operator M (design depends on BW/fs only)
+        setup(cfg)
+    elif gsp is not None:
+        setup(cfg, gsp)              # the same rate, configured through another call form of gv (M was taken before)
+    tol_lin, wrap = TOL_LIN, None
+    if '-dt:' in base:
+        name = base.split('-dt:')[1]
+        tol_lin = dt_tol(name)
+        wrap = DT[name][2] if DT[name][2] in ('unsigned', 'full-scale-int') else None
     fails = Fails()
     h = hashlib.sha256()
     worst = 0.0
     worst_c = 0.0
     for k in range(N):
         inp, slots = basis_input(dev, base, N, k)
+        snap = freeze(inp)           # every input is write-protected and compared byte for byte after the call
         if reth:
-            r = F(cfg, inp, retH=True)
+            r = F(cfg, inp, retH=True, sp=sp)
             if not (isinstance(r, tuple) and len(r) == 2):
                 fails.add('LPF:retH:grid', f'k={k}: retH=True did not return (output, H)')
                 continue
             out = r[0]
         else:
-            out = F(cfg, inp)
+            out = F(cfg, inp, sp=sp)
+        if not unchanged(inp, snap):
+            fails.add(f'{dev}:input-modified', f'k={k}: the input object was changed by the call')
         sig, noi = arrs(out)
         h.update(np.ascontiguousarray(sig).tobytes())
         if noi is not None:
@@ -376,12 +577,13 @@ def run_basis(cfg, N, kind, M, scale):
                 fails.add(f'{dev}:{cl}:non-finite', f'k={k}: non-finite output')
                 continue
             if spec[0] == 'b':
-                exp = spec[1] * M[:, spec[2]]
+                exp = spec[1] * (M[:, spec[2]] if len(spec) == 3 else M[:, spec[2]] - M[:, spec[3]])      # 4-tuple: coef*(e_i - e_j)
                 err = float(np.max(np.abs(got - exp))) / (scale * abs(spec[1]))
-                worst = max(worst, err)
-                if err > TOL_LIN:
-                    fails.add(f'{dev}:{cl}:matrix-mismatch{sfx}',
-                              f'k={k}: {attr}{"" if row is None else f"[{row}]"} should be {spec[1]}*M[:,{spec[2]}], max dev {err:.3g} of |coef|*max|M|', err)
+                if wrap is None:
+                    worst = max(worst, err)
+                if err > tol_lin:
+                    fails.add(f'{dev}:{cl}:matrix-mismatch{sfx}' if wrap is None else f'{dev}:integer-input-wraparound:{wrap}',
+                              f'k={k}: {attr}{"" if row is None else f"[{row}]"} should be {spec[1]}*{f"M[:,{spec[2]}]" if len(spec) == 3 else f"(M[:,{spec[2]}]-M[:,{spec[3]}])"}, max dev {err:.3g} of |coef|*max|M|', err)
             elif spec[0] == 'r':
                 _, D, e, idx = spec
                 exp = D + e * M[:, idx]
@@ -482,9 +684,12 @@ def run_lin(cfg, N, kind, M, scale, seed):
             fails.add(key, f'{what}: max dev {dv:.3g}, allowed {TOL_LIN * sc * unit_amp + tol_abs:.3g}', err)
 
     def call(inp):
+        snap = freeze(inp)
+        r = F(cfg, inp, retH=reth)
+        if not unchanged(inp, snap):
+            fails.add(f'{dev}:input-modified', 'the input object was changed by the call')
         if not reth:
-            return F(cfg, inp)
-        r = F(cfg, inp, retH=True)
+            return r
         if not (isinstance(r, tuple) and len(r) == 2):
             fails.add('LPF:retH:grid', 'retH=True did not return (output, H)')
             return None
@@ -602,6 +807,108 @@ def run_const(cfg, N, kind):
     return fails, h.hexdigest(), 0.0, worst
 
 
+# ---- hardening pass: dtype-quantised fields and chained calls
+FIELD_DT = tuple(k for k, v in DT.items() if v[2] in ('exact', 'lowprec')) + ('f64-int',)
+FIELD_AMP = {'i8': 40, 'i16': 10000, 'i32': 10 ** 6, 'i64': 10 ** 6}     # 3*A stays inside the dtype (edge extension 2*x[0]-x[k])
+
+
+def quantise(w, name):
+    """the waveform w as a record of dtype `name` (integers: scaled to +-A and rounded; 'f64-int': integer-valued floats)"""
+    if name == 'f64-int':
+        return np.round(100 * w.real)
+    dt = DT[name][0]
+    if dt is np.bool_:
+        return w.real > 0
+    if name in FIELD_AMP:
+        return np.round(w.real / np.max(np.abs(w.real)) * FIELD_AMP[name]).astype(dt)
+    if np.issubdtype(dt, np.complexfloating):
+        return w.astype(dt)
+    return w.real.astype(dt)
+
+
+def run_field(cfg, N, kind, M, scale, seed):
+    """kind = ('field', container, pair, dtype name): records of that dtype in every component of the container;
+    each component of the output must be M @ (the values the record holds) - linearity between an integer / low-precision
+    record and the float64 basis the matrix was measured with"""
+    dev = cfg[0]
+    cont, pair, name = kind[1:4]
+    cplx = dev == 'BPF'
+    x, y = fields(pair, N, seed, cfg, cplx)
+    comps = [quantise(w, name) for w in (x, y, x[::-1], y[::-1])]
+    tol = TOL_LIN if name == 'f64-int' else dt_tol(name)
+    fails = Fails()
+    worst = 0.0
+    if dev == 'LPF':
+        from opticomlib.typing import electrical_signal as ES
+        inp = comps[0] if cont == 'nd' else ES(comps[0], comps[1])
+        used = [('signal', None, 0)] + ([('noise', None, 1)] if cont != 'nd' else [])
+    else:
+        from opticomlib.typing import optical_signal as OS
+        inp = OS(comps[0]) if cont == 'os1' else OS(np.array([comps[0], comps[1]]), np.array([comps[2], comps[3]]))
+        used = [('signal', None, 0)] if cont == 'os1' else [('signal', 0, 0), ('signal', 1, 1), ('noise', 0, 2), ('noise', 1, 3)]
+    snap = freeze(inp)
+    out = F(cfg, inp)
+    if not unchanged(inp, snap):
+        fails.add(f'{dev}:input-modified', 'the input object was changed by the call')
+    sig, noi = arrs(out)
+    h = hashlib.sha256(np.ascontiguousarray(sig).tobytes())
+    for attr, row, j in used:
+        a = sig if attr == 'signal' else noi
+        got = None if a is None else (a if row is None else (a[row] if a.ndim == 2 else None))
+        if got is None or got.shape != (N,):
+            fails.add(f'{dev}:length', f'{attr} row {row}: output shape {None if a is None else a.shape}')
+            continue
+        v = comps[j].astype(complex) if cplx else np.real(comps[j]).astype(float)
+        exp = M @ v
+        err = float(np.max(np.abs(got - exp))) / (scale * max(float(np.max(np.abs(v))), 1e-300))
+        worst = max(worst, err * TOL_LIN / tol)
+        if not err <= tol:
+            fails.add(f'{dev}:matrix-apply:{clause_of(attr, row)}:dtype', f'{attr}{"" if row is None else f"[{row}]"} of a {name} record: deviates from M@values by {err:.3g} of max|M|*max|x| (allowed {tol:.3g})', err)
+    return fails, h.hexdigest(), worst, 0.0
+
+
+def run_chain(cfg, N, kind, M, scale, seed):
+    """kind = ('chain', container, pair): the container returned by one call is the input of the next (LPF on an ndarray:
+    also the returned .signal array) ; expected M @ M @ x in every component"""
+    dev = cfg[0]
+    cont, pair = kind[1:3]
+    cplx = dev == 'BPF'
+    x, y = fields(pair, N, seed, cfg, cplx)
+    fails = Fails()
+    worst = 0.0
+    if dev == 'LPF':
+        from opticomlib.typing import electrical_signal as ES
+        inp = x.copy() if cont == 'nd' else ES(x, y)
+        used = [('signal', None, x)] + ([('noise', None, y)] if cont != 'nd' else [])
+    else:
+        from opticomlib.typing import optical_signal as OS
+        inp = OS(x) if cont == 'os1' else OS(np.array([x, y]), np.array([y[::-1], x[::-1]]))
+        used = [('signal', None, x)] if cont == 'os1' else [('signal', 0, x), ('signal', 1, y), ('noise', 0, y[::-1]), ('noise', 1, x[::-1])]
+    out1 = F(cfg, inp)
+    snap = freeze(out1)
+    outs = [F(cfg, out1)]
+    if dev == 'LPF' and cont == 'nd':
+        outs.append(F(cfg, out1.signal))
+    if not unchanged(out1, snap):
+        fails.add(f'{dev}:input-modified', 'the container returned by the first call was changed by the second')
+    h = hashlib.sha256()
+    for out in outs:
+        sig, noi = arrs(out)
+        h.update(np.ascontiguousarray(sig).tobytes())
+        for attr, row, v in used:
+            a = sig if attr == 'signal' else noi
+            got = None if a is None else (a if row is None else (a[row] if a.ndim == 2 else None))
+            if got is None or got.shape != (N,):
+                fails.add(f'{dev}:length', f'{attr} row {row}: output shape {None if a is None else a.shape}')
+                continue
+            exp = M @ (M @ v)
+            err = float(np.max(np.abs(got - exp))) / (2 * scale * scale * float(np.max(np.abs(v))))
+            worst = max(worst, err)
+            if not err <= TOL_LIN:
+                fails.add(f'{dev}:chained:{clause_of(attr, row)}', f'{attr}{"" if row is None else f"[{row}]"} of F(F(x)) deviates from M@M@x by {err:.3g}', err)
+    return fails, h.hexdigest(), worst, 0.0
+
+
 def case_operator(case):
     cfg, N, kind, seed = case
     setup(cfg)
@@ -609,13 +916,17 @@ def case_operator(case):
     M, v0 = ref_matrix(cfg, N)
     scale = float(np.max(np.abs(M))) or 1.0
     viol = []
-    first_kind = kind in (('nd-f64', LPF_XKINDS[0]) if dev == 'LPF' else ('os1', BPF_XKINDS[0]))
+    first_kind = kind in (('nd-f64', LPF_XKINDS[0], LPF_HKINDS[0]) if dev == 'LPF' else ('os1', BPF_XKINDS[0], BPF_HKINDS[0]))
     if first_kind:
         viol += v0                       # problems of the reference path are reported once per configuration and part
     if isinstance(kind, str):
         fails, dig, w, wc = run_basis(cfg, N, kind, M, scale)
     elif kind[0] == 'lin':
         fails, dig, w, wc = run_lin(cfg, N, kind, M, scale, seed)
+    elif kind[0] == 'field':
+        fails, dig, w, wc = run_field(cfg, N, kind, M, scale, seed)
+    elif kind[0] == 'chain':
+        fails, dig, w, wc = run_chain(cfg, N, kind, M, scale, seed)
     else:
         fails, dig, w, wc = run_const(cfg, N, kind)
     viol += fails.viol(f'cfg={cfg} N={N} kind={kind}')
@@ -757,8 +1068,8 @@ def case_tone(case):
 
     # per component j of one call: DC level D_j, amplitude e_j
     def comp(j):
-        if ext is None:
-            return 0.0, 1.0
+        if ext is None:          # base kinds: every component of one call carries the tone with a DIFFERENT coefficient
+            return 0.0, ((1.0, 1j, -0.5, ZC)[j] if cplx else (1.0, -0.5, 1.0, 1.0)[j])
         if ext[0] == 'amp':
             return 0.0, amp(ext[1], j)
         return ripple(ext[1], j, cplx)
@@ -918,13 +1229,17 @@ def case_reth(case):
     fails = Fails()
     # cont = 'nd' | 'es+noise' | (same, i): the record (and, differently, its noise) on member i of the amplitude axis
     g = (1.0, 0.1)
+    sp = None
     if not isinstance(cont, str):
-        g = (amp(cont[1]), amp(cont[1], 1))
+        if cont[1] == 'sp':          # (container, 'sp', spelling of BW / n / fs)
+            sp = cont[2]
+        else:
+            g = (amp(cont[1]), amp(cont[1], 1))
         cont = cont[0]
     x = g[0] * np.cos(2 * np.pi * 3 * np.arange(N) / N)
     xn = g[1] * np.cos(2 * np.pi * 3 * np.arange(N) / N)[::-1].copy()
     inp = x if cont == 'nd' else ES(x, xn)
-    r = F(cfg, inp, retH=True)
+    r = F(cfg, inp, retH=True, sp=sp)
     meas = {'cf': 0.0, 'sp': 0.0, 'out': 0.0}
     if not (isinstance(r, tuple) and len(r) == 2):
         return res(viol=[('LPF:retH:grid', f'cfg={cfg}: retH=True did not return (output, H)')], obs='no-tuple')
@@ -965,11 +1280,159 @@ def case_reth(case):
                stats={'filter_calls': 3 if cont != 'nd' else 2, 'reth_points': int(H.size)}, payload=meas)
 
 
+# --------------------------------------------------------------------------- call histories / parameter sweeps
+# Absolute oracle of these parts: the stationary gain of a forward-backward Bessel filter is |H(f)|^2 with H the closed
+# form above (no scipy design routine involved).  Tolerance: scipy normalises the prototype with optimize.newton
+# (tol 1.48e-8) and |d|H|^2/dln w| <= 2n <= 16 -> 2.4e-7 ; measured (retH part) 3e-14.
+TOL_GAIN = 1e-6
+H_BW = 3.2e9                  # LPF bandwidth of every history step (BPF: 2*H_BW); cutoff/fs = 0.2 ... 0.02 over the menu
+H_TONES = (0.02, 0.05, 0.1, 0.2)          # cycles/sample: the SAME input objects serve every step of a history
+GV_MENU = (                   # (call form, arguments, the sampling rate that configuration means)
+    ('sps,R', dict(sps=16, R=1e9), 16e9),
+    ('sps,R (10x)', dict(sps=16, R=10e9), 160e9),
+    ('sps,fs', dict(sps=8, fs=40e9), 40e9),
+    ('R,fs non-integer fs/R', dict(R=3e9, fs=40e9), 40e9),             # sps = 13, sps*R = 39e9
+    ('R,fs non-integer fs/R (2)', dict(R=1.5e9, fs=25e9), 25e9),       # sps = 17, sps*R = 25.5e9
+    ('fs alone', dict(fs=64e9), 64e9),                                  # R is whatever the previous step left
+    ('sps,R,wavelength,N', dict(sps=20, R=1.25e9, wavelength=1310e-9, N=32), 25e9),
+)
+
+
+def tone_set(dev, cont, f, N=N_TONE):
+    """unit tone at f cycles/sample in every component of one container (different coefficient in each component)
+    -> (list of input objects, reader) ; reader(list of outputs) -> [(label, pointwise gain on the middle half)] or None"""
+    t = np.arange(N)
+    ex = np.exp(2j * np.pi * f * t)
+    exm = np.conj(ex)
+    mid = slice(N // 4, 3 * N // 4)
+
+    def ok(*a):
+        return all(v is not None and np.shape(v) == (N,) for v in a)
+
+    if dev == 'LPF':
+        from opticomlib.typing import electrical_signal as ES
+        if cont == 'nd':
+            def reader(outs):
+                yc, ys = arrs(outs[0])[0], arrs(outs[1])[0]
+                return [('cos+i*sin', ((yc + 1j * ys) / ex)[mid])] if ok(yc, ys) else None
+            return [ex.real.copy(), ex.imag.copy()], reader
+
+        def reader(outs):
+            s, nz = arrs(outs[0])
+            return [('signal=cos, noise=-0.5*sin', ((s + 1j * nz / -0.5) / ex)[mid])] if ok(s, nz) else None
+        return [ES(ex.real.copy(), -0.5 * ex.imag)], reader
+    from opticomlib.typing import optical_signal as OS
+    if cont == 'os1':
+        def reader(outs):
+            y = arrs(outs[0])[0]
+            return [('+f', (y / ex)[mid])] if ok(y) else None
+        return [OS(ex)], reader
+
+    def reader(outs):
+        s, nz = arrs(outs[0])
+        if nz is None or s.shape != (2, N) or nz.shape != (2, N):
+            return None
+        return [('+f signal row 0', (s[0] / ex)[mid]), ('-f signal row 1', (s[1] / (1j * exm))[mid]),
+                ('-f noise row 0', (nz[0] / (-0.5 * exm))[mid]), ('+f noise row 1', (nz[1] / (ZC * ex))[mid])]
+    return [OS(np.array([ex, 1j * exm]), np.array([-0.5 * exm, ZC * ex]))], reader
+
+
+def judge_gains(fails, key, what, gains, n, c, f):
+    """gains measured at f cycles/sample against the closed-form two-pass gain of the order-n filter with cutoff c"""
+    exp = float(abs(closed_form(n, c, np.array([f]))[0]) ** 2)
+    worst = 0.0
+    for lab, g in gains:
+        A = complex(np.mean(g)) if np.all(np.isfinite(g)) else complex(np.nan)
+        e = abs(A - exp)
+        worst = max(worst, e if np.isfinite(e) else 999.0)
+        if not e <= TOL_GAIN:
+            fails.add(key, f'{what}, tone at {f}*fs {lab}: gain {A:.6g}, the order-{n} filter with cutoff {c:.6g}*fs has {exp:.6g}', e if np.isfinite(e) else 999.0)
+    return worst, exp
+
+
+def case_history(case):
+    """case = (dev, n, container, steps) ; step = (g, a): configure the grid with GV_MENU[g] (first step: gv.clean() +
+    that call; later steps: that call on top of the previous state), then filter the SAME write-protected input objects
+    with the SAME BW and n; a (LPF only) = menu index whose rate is passed as fs=... (the grid stays at GV_MENU[g])"""
+    import warnings
+    dev, n, cont, steps = case
+    _install_memo()
+    from opticomlib.typing import gv
+    from opticomlib.devices import LPF, BPF
+    sets = [(f,) + tone_set(dev, cont, f) for f in H_TONES]
+    snaps = [[freeze(x) for x in inputs] for _, inputs, _ in sets]
+    fails = Fails()
+    obs = []
+    worst = 0.0
+    calls = 0
+    for i, (g, a) in enumerate(steps):
+        nm, kw, rate = GV_MENU[g]
+        if i == 0:
+            gv_reset(**kw)
+        else:
+            with warnings.catch_warnings():
+                warnings.simplefilter('ignore')
+                gv(**kw)
+        fs = rate if a is None else GV_MENU[a][2]
+        c = H_BW / fs
+        what = f'step {i} (gv({", ".join(f"{k}={v:g}" for k, v in kw.items())}){"" if a is None else f", fs={fs:g}"})'
+        key = f'{dev}:history:gain' + ('' if a is None else ':fs-arg') + (':first-call' if i == 0 else '')
+        for (f, inputs, reader), snap in zip(sets, snaps):
+            if dev == 'LPF':
+                outs = [LPF(x, H_BW, n=n, **({} if a is None else {'fs': fs})) for x in inputs]
+            else:
+                outs = [BPF(x, 2 * H_BW, n=n) for x in inputs]
+            calls += len(inputs)
+            if [unchanged(x, sn) for x, sn in zip(inputs, snap)] != [True] * len(inputs):
+                fails.add(f'{dev}:input-modified', f'{what}: the shared input object was changed by the call')
+            gains = reader(outs)
+            if gains is None:
+                fails.add(f'{dev}:length', f'{what}: output shapes differ from the input')
+                continue
+            w, exp = judge_gains(fails, key, what, gains, n, c, f)
+            worst = max(worst, w)
+            obs.append(tuple(round(float(abs(np.mean(g_))), 9) for _, g_ in gains))
+    return res(viol=fails.viol(f'case={case}'), obs=tuple(obs), nontrivial=case, stats={'filter_calls': calls, 'history_steps': len(steps)},
+               payload={'gain': worst})
+
+
+SWEEP_CUTS = tuple(sorted(CUTS + CUTS_FINE))
+
+
+def case_sweep(case):
+    """case = (cfg-like (dev, -, -, fs, src), container): ONE write-protected input object per tone; the cutoff is swept
+    up and down over SWEEP_CUTS at order 4, then the order up and down over 1..8 at cutoff 0.1*fs"""
+    (dev, _, _, fs, src), cont = case
+    sets = [(f,) + tone_set(dev, cont, f) for f in (0.05, 0.2)]
+    snaps = [[freeze(x) for x in inputs] for _, inputs, _ in sets]
+    fails = Fails()
+    obs = []
+    worst = 0.0
+    calls = 0
+    seq = [(4, c) for c in SWEEP_CUTS + SWEEP_CUTS[::-1]] + [(n, 0.1) for n in tuple(range(1, 9)) + tuple(range(8, 0, -1))]
+    setup((dev, 4, 0.1, fs, src))
+    for i, (n, c) in enumerate(seq):
+        cfg = (dev, n, c, fs, src)
+        for (f, inputs, reader), snap in zip(sets, snaps):
+            outs = [F(cfg, x) for x in inputs]
+            calls += len(inputs)
+            if [unchanged(x, sn) for x, sn in zip(inputs, snap)] != [True] * len(inputs):
+                fails.add(f'{dev}:input-modified', f'call {i}: the shared input object was changed by the call')
+            gains = reader(outs)
+            if gains is None:
+                fails.add(f'{dev}:length', f'call {i} (n={n}, cutoff {c}): output shapes differ from the input')
+                continue
+            w, exp = judge_gains(fails, f'{dev}:sweep:gain', f'call {i} of the sweep (n={n}, cutoff {c}*fs)', gains, n, c, f)
+            worst = max(worst, w)
+            obs.append(tuple(round(float(abs(np.mean(g_))), 9) for _, g_ in gains))
+    return res(viol=fails.viol(f'case={case}'), obs=tuple(obs), nontrivial=case, stats={'filter_calls': calls}, payload={'gain': worst})
+
+
 # --------------------------------------------------------------------------- driver
-def configs(dev, orders):
+def configs(dev, orders, cuts=CUTS):
     out = []
     for n in orders:
-        for c in CUTS:
+        for c in cuts:
             for fs in (16e9, 160e9):
                 out.append((dev, n, c, fs, 'gv'))
             if dev == 'LPF':
@@ -1007,6 +1470,30 @@ def op_xkinds(dev):
     return ks
 
 
+def op_hkinds(dev):
+    """hardening kinds of the operator part: complete basis through every dtype / spelling / gv call form / layout kind,
+    dtype-quantised fields (every non-wrapping dtype + integer-valued floats) and chained calls"""
+    conts = ('nd', 'es+noise') if dev == 'LPF' else ('os1', 'os2+noise')
+    ks = list(LPF_HKINDS if dev == 'LPF' else BPF_HKINDS)
+    ks += [('field', cont, pair, name) for cont in conts for pair in PAIRS for name in FIELD_DT]
+    ks += [('chain', cont, pair) for cont in conts for pair in PAIRS]
+    return ks
+
+
+def history_cases(dev, orders, quick):
+    """all ordered pairs of GV_MENU entries (a pair (g, g) is the repeated call); LPF: every step with / without fs=...
+    (the rate of the NEXT menu entry while the grid stays where it is).  thorough: also all triples for orders 1, 4, 8"""
+    m = range(len(GV_MENU))
+    conts = ('nd', 'es+noise') if dev == 'LPF' else ('os1', 'os2+noise')
+    args = (lambda g: (None, (g + 1) % len(GV_MENU))) if dev == 'LPF' else (lambda g: (None,))
+    seqs = [((g0, a0), (g1, a1)) for g0 in m for g1 in m for a0 in args(g0) for a1 in args(g1)]
+    out = [(dev, n, cont, sq) for n in orders for cont in conts for sq in seqs]
+    if not quick:
+        tri = [((g0, None), (g1, a1), (g2, None)) for g0 in m for g1 in m for g2 in m for a1 in args(g1)]
+        out += [(dev, n, cont, sq) for n in (1, 4, 8) for cont in conts for sq in tri]
+    return out
+
+
 def wave_kinds(dev):
     """kinds of the zerophase part and of the tone part"""
     na = range(len(AMPS))
@@ -1034,7 +1521,7 @@ def run(ctx):
     orders = (1, 4, 8) if ctx.quick else tuple(range(1, 9))
     ctx.rule(f'C11: bounded-exhaustive basis enumeration. configurations = device {{LPF,BPF}} x order {list(orders)} x cutoff '
              f'{list(CUTS)}*fs x fs {{16e9,160e9}} x fs-source {{gv.fs; LPF(fs=...) with gv at the other rate}}; for every '
-             f'configuration and every N in {[N_SHORT] + list(N_OP)} (17 only for orders <= 4) the response to EVERY unit impulse e_k is taken (complete operator '
+             f'configuration and every N in n_op(order) = {{n_min(order)}} + {list(N_OP)} the response to EVERY unit impulse e_k is taken (complete operator '
              f'matrix M) through the plain entry point and again through every container kind (9 per device: int/scaled/retH '
              f'ndarray, electrical/optical container, noise present/absent/alone, complex dtype, 1-/2-pol, n_pol broadcast) with '
              f'permuted basis vectors in signal, noise and the two rows; every response must be the matching column of M. '
@@ -1044,34 +1531,64 @@ def run(ctx):
              f'ripple on a DC level (D, e/|D|) in {list(RIPPLES)}, and the LPF mode axis (every container kind with / without / '
              f'only noise also in retH=True mode; fs=... mode is part of the configuration). Part operator-x pushes the '
              f'complete basis through {len(LPF_XKINDS)} (LPF) / {len(BPF_XKINDS)} (BPF) such kinds for N in '
-             f'{list(N_EXT_QUICK) if ctx.quick else [N_SHORT] + list(N_OP)}')
+             f'{list(N_EXT_QUICK) if ctx.quick else "n_op(order)"}')
     ctx.assume('scipy.signal.bessel is a pure function of its arguments (its result is memoised by the harness per worker; '
                'MCX_C11_NOMEMO=1 disables the memo); numpy/scipy arithmetic is IEEE double')
     ctx.assume('"away from the record edges" = middle half of a 4096-sample record (tones) and +-(6/fc+50) samples around the '
-               'centre of a 2049-sample record (pulses); records are longer than the sosfiltfilt padding of every order (27)')
+               'centre of a 2049-sample record (pulses); records are longer than 16 samples AND than the sosfiltfilt padding 3*(order+1) of their order')
     ctx.assume(f'seeded random field members of the superposition alphabet are drawn from default_rng([VERIF_SEED={ctx.seed}, cfg])')
+    ctx.rule(f'HARDENING PASS. Part operator-h (same case form and the same M as reference): the complete basis through '
+             f'{len(LPF_HKINDS)} (LPF) / {len(BPF_HKINDS)} (BPF) kinds = sample dtypes {list(DT)} x {{plain, container + noise / 2-pol + noise}}, '
+             f'spellings of BW / n / fs {list(SC_SPELL)}, call forms of gv {list(GV_SPELL)} (same rate; (R,fs) with non-integer fs/R), '
+             f'layouts {list(LAYOUT_KINDS)}; dtype-quantised fields {list(FIELD_DT)} and chained calls F(F(x)); N in '
+             f'{"{n_min(order), 28}" if ctx.quick else "n_op(order)"}, n_min = max(17, 3*(order+1)+1) = shortest legal record of the order. '
+             f'Every input of the basis / superposition / field / history / sweep cases is write-protected and compared byte for byte after the call. '
+             f'Orders outside the quick set ({[n for n in range(1, 9) if n not in orders]}) run a thin slice (cutoff 0.1, fs 16e9, N = n_min, all base kinds + base tone kinds). '
+             f'Tone and retH parts also on cutoffs {list(CUTS_FINE)} (base kinds). retH on N in {list(N_RETH)} + n_min. '
+             f'Part history: sequences of (gv call form, optional fs=...) steps over the menu {[m[0] for m in GV_MENU]} - all ordered pairs'
+             f'{"" if ctx.quick else " and (orders 1,4,8) all triples"} - on ONE shared write-protected input per tone {list(H_TONES)}, same BW and n in every step; '
+             f'part sweep: cutoff up/down over {list(SWEEP_CUTS)} and order up/down over 1..8 on one shared input. Both judged '
+             f'against the closed-form two-pass Bessel gain (absolute oracle, tolerance {TOL_GAIN}).')
     measured = {}
+    thin_orders = [n for n in range(1, 9) if n not in orders]
     for dev in ('LPF', 'BPF'):
         cfgs = configs(dev, orders)
-        ctx.space(f'{dev}.configurations', len(cfgs))
+        thin = [(dev, n, 0.1, 16e9, 'gv') for n in thin_orders]          # quick only: orders the quick tier does not cross with everything
+        fine = configs(dev, orders, CUTS_FINE)
+        ctx.space(f'{dev}.configurations', len(cfgs) + len(thin) + len(fine))
         kinds = op_kinds(dev)
         cases = [(cfg, N, kind, ctx.seed) for cfg in cfgs for N in n_op(cfg[1]) for kind in kinds]
+        cases += [(cfg, n_min(cfg[1]), kind, ctx.seed) for cfg in thin for kind in kinds]
         p = ctx.pmap(f'{dev}.operator', case_operator, cases, horizon=120, chunk=len(kinds))
         measured[f'{dev}.operator'] = _maxes(p)
         xk = op_xkinds(dev)
         cases = [(cfg, N, kind, ctx.seed) for cfg in cfgs for N in n_op(cfg[1]) if (not ctx.quick or N in N_EXT_QUICK) for kind in xk]
         p = ctx.pmap(f'{dev}.operator-x', case_operator, cases, horizon=120, chunk=len(xk))
         measured[f'{dev}.operator-x'] = _maxes(p)
+        hk = op_hkinds(dev)
+        cases = [(cfg, N, kind, ctx.seed) for cfg in cfgs for N in n_op(cfg[1]) if (not ctx.quick or N in (n_min(cfg[1]), 28)) for kind in hk]
+        p = ctx.pmap(f'{dev}.operator-h', case_operator, cases, horizon=120, chunk=len(hk))
+        measured[f'{dev}.operator-h'] = _maxes(p)
         zk, tk = wave_kinds(dev)
         p = ctx.pmap(f'{dev}.zerophase', case_zerophase, [(cfg, k) for cfg in cfgs for k in zk], horizon=60)
         measured[f'{dev}.zerophase'] = _maxes(p)
-        p = ctx.pmap(f'{dev}.tone', case_tone, [(cfg, k) for cfg in cfgs for k in tk], horizon=60)
+        base = tk[:2]                 # the plain and the container + noise (2-pol + noise) kinds
+        p = ctx.pmap(f'{dev}.tone', case_tone, [(cfg, k) for cfg in cfgs for k in tk] + [(cfg, k) for cfg in fine + thin for k in base], horizon=60)
         measured[f'{dev}.tone'] = _maxes(p)
         if dev == 'LPF':
-            rk = ['nd', 'es+noise'] + [(c, i) for c in ('nd', 'es+noise') for i in range(len(AMPS))]
-            p = ctx.pmap('LPF.retH', case_reth, [(cfg, N, cont) for cfg in cfgs for N in N_RETH for cont in rk], horizon=60)
+            rk = ['nd', 'es+noise'] + [(c, i) for c in ('nd', 'es+noise') for i in range(len(AMPS))] + [('nd', 'sp', 'np-int'), ('es+noise', 'sp', '0d')]
+            cases = [(cfg, N, cont) for cfg in cfgs for N in sorted({n_min(cfg[1])} | set(N_RETH)) for cont in rk]
+            cases += [(cfg, N, 'nd') for cfg in fine + thin for N in (n_min(cfg[1]), 97)]
+            p = ctx.pmap('LPF.retH', case_reth, cases, horizon=60)
             measured['LPF.retH'] = _maxes(p)
+        p = ctx.pmap(f'{dev}.history', case_history, history_cases(dev, orders, ctx.quick), horizon=60)
+        measured[f'{dev}.history'] = _maxes(p)
+        sw = [((dev, 0, 0, fs, src), cont) for fs in (16e9, 160e9) for src in (('gv', 'arg') if dev == 'LPF' else ('gv',))
+              for cont in (('nd', 'es+noise') if dev == 'LPF' else ('os1', 'os2+noise'))]
+        p = ctx.pmap(f'{dev}.sweep', case_sweep, sw, horizon=120)
+        measured[f'{dev}.sweep'] = _maxes(p)
     ctx.extra['measured_max_errors'] = measured
     ctx.extra['tolerances'] = {'lin': TOL_LIN, 'const': TOL_CONST, 'sym': TOL_SYM, 'flat/phase/mono': TOL_FLAT, 'cutoff_band_dB': BAND_DB,
-                               'retH_closed_form': TOL_RETH_CF, 'retH_scipy': TOL_RETH_SP, 'retH_two_pass': TOL_RETH_2P}
+                               'retH_closed_form': TOL_RETH_CF, 'retH_scipy': TOL_RETH_SP, 'retH_two_pass': TOL_RETH_2P,
+                               'history/sweep gain': TOL_GAIN, 'low-precision dtypes': '8*eps(dtype)'}
     print(f'[C11] measured maxima: {measured}', flush=True)
